@@ -302,8 +302,63 @@ fn planted_nodes(out: &mut Out, thorough: bool) {
     out.oracle(found >= 1, || "planted node search".into(), || "no nonce with a node as first draw found in 2^24 tries".into());
 }
 
+/// nonces (under the key 0x42…42) whose first TWO draws are both 2^20-th roots of unity, found once with
+/// `harness search-c19` (about 2^24 trials each) and kept as a corpus: one such nonce in 2^24 occurs by chance
+const DOUBLE_REJECTION_NONCES: &str = include_str!("../corpus/c19_double_rejection.txt");
+
+/// the corpus search: prints nonces whose first two draws are 2^20-th roots of unity
+pub fn search_double(count: usize) {
+    let key = [0x42u8; 32];
+    let mut nonce = [0u8; 16];
+    let mut found = 0;
+    for i in 0u64.. {
+        nonce[..8].copy_from_slice(&i.to_le_bytes());
+        let mut mac = <hmac::Hmac<sha2::Sha256> as KeyInit>::new_from_slice(&key).unwrap();
+        Mac::update(&mut mac, &nonce);
+        let tag: [u8; 32] = mac.finalize().into_bytes().into();
+        let ks = keystream(&tag, 8);
+        let a = u32::from_le_bytes(ks[..4].try_into().unwrap());
+        let b = u32::from_le_bytes(ks[4..8].try_into().unwrap());
+        if a >= P || b >= P {
+            continue;
+        }
+        if F::from(a).pow(1 << 20) == F::one() && F::from(b).pow(1 << 20) == F::one() {
+            println!("{}", hex(&nonce));
+            found += 1;
+            if found >= count {
+                return;
+            }
+        }
+    }
+}
+
+/// replay of the corpus: the evaluation point is the first draw that is NOT a 2n-th root of unity — the third one
+fn double_rejections(out: &mut Out, thorough: bool) {
+    let dim = (1usize << 19) - 1; // 2n = 2^20
+    let key = [0x42u8; 32];
+    let Ok(v) = Prio2::new(dim) else {
+        out.oracle(false, || "Prio2::new(2^19 - 1)".to_string(), || "refused".into());
+        return;
+    };
+    let lines: Vec<&str> = DOUBLE_REJECTION_NONCES.lines().filter(|l| !l.trim().is_empty() && !l.starts_with('#')).collect();
+    for l in lines.iter().take(if thorough { 4 } else { 1 }) {
+        let nb = crate::util::unhex(l.trim());
+        let nonce: [u8; 16] = nb.as_slice().try_into().unwrap();
+        let (expect, stream, draws) = eval_at(&key, &nonce, dim);
+        out.oracle(draws >= 3, || format!("corpus nonce {}", l), || "the corpus entry does not start with two roots of unity (harness inconsistent)".into());
+        let real = real_eval_at(&v, dim, &key, &nonce);
+        out.oracle(real == Some(expect), || format!("evaluation point dim=2^19-1 key=42.. nonce={} (the first two draws are 2n-th roots of unity)", l), || format!("verify_init evaluated at {:?}, expected the first admissible draw {}", real.map(u32::from), u32::from(expect)));
+        if let Some(r) = real {
+            out.oracle(r.pow(1 << 20) != F::one(), || format!("evaluation point dim=2^19-1 nonce={}", l), || format!("the query point {} is an interpolation node", u32::from(r)));
+            out.case(format!("c19 evalat {} {}", dim, hex(&stream)), format!("ok {}", enc(&[r])));
+        }
+        out.count("evalat.double-rejection");
+    }
+}
+
 pub fn run(out: &mut Out, thorough: bool, seed: u64) {
     let mut rng = Sm::new(seed ^ 0x1901);
+    double_rejections(out, thorough);
     let dims: Vec<usize> = if thorough { vec![1, 2, 3, 4, 5, 7, 8, 15, 16, 31, 32, 100, 255, 256, 1000] } else { vec![1, 2, 3, 4, 7, 8, 15, 16, 33, 100] };
     let reps = if thorough { 4 } else { 2 };
     for &dim in &dims {
